@@ -1007,7 +1007,11 @@ def strata(ctx):
     cyc_arch = Cycle(ctx, "arch", [(k, m, sk) for (k, m) in arch_combos for sk in SEED_KINDS + ["bigint"]],
                      first=[("cvt", "kmeans", sk) for sk in ("SeedSequence", "bigint", "child")])
     rot = {"es": 0, "dqd": 0}  # the seed kind of the stratum's main emitter rotates: child, int, SeedSequence, ...
-    cyc_es = Cycle(ctx, "es", [(es, r) for es in ES_NAMES for r in RANKERS])
+    # the rankers that draw (random directions) come first in every run, given as the class itself first
+    r0 = ctx.rng("es-first")
+    cyc_es = Cycle(ctx, "es", [(es, r) for es in ES_NAMES for r in RANKERS],
+                   first=[(r0.choice(ES_NAMES), "rd"), (r0.choice(ES_NAMES), "2rd")])
+    rd_forms = [0]
     cyc_dqd = Cycle(ctx, "dqd", [("ga", es, r) for es in ES_NAMES for r in ("imp", "2imp", "rd", "obj")]
                     + [("gop", None, None)] * 4)
     cyc_mixed = Cycle(ctx, "mixed", [(s, am, ra) for s in ("plain", "bandit") for am in ("batch", "single")
@@ -1030,11 +1034,16 @@ def strata(ctx):
         es, ranker = cyc_es.next(rng)
         n_iter = rng.randint(3, 6 * L)
         c = base_case(rng, n_iter)
-        c["archive"] = archive_spec(rng, rng.choice(["grid", "grid", "cvt", "sliding", "proximity"]))
+        # (a ProximityArchive only works with the novelty ranker)
+        c["archive"] = archive_spec(rng, rng.choice(["grid", "grid", "cvt", "sliding"] +
+                                                    ([] if ranker in ("rd", "2rd") else ["proximity"])))
         sk = SEED_KINDS[rot["es"] % 3]
         rot["es"] += 1
         i = rot["es"]
         c["emitters"] = [es_emitter(rng, c["archive"]["kind"], es, ranker, sk=sk, tight=True if i % 2 == 1 else None)]
+        if ranker in ("rd", "2rd") and c["archive"]["kind"] != "proximity":
+            c["emitters"][0]["rform"] = ["class", "full", "abbr"][rd_forms[0] % 3]
+            rd_forms[0] += 1
         if i % 3 == 1:
             # every third case: the native CMA-ES (numba-compiled sampling helpers) under tight bounds
             c["emitters"].append(es_emitter(rng, c["archive"]["kind"], "cma_es", tight=True))
